@@ -27,15 +27,22 @@ type c08Var struct {
 	fresh     bool
 	connected bool
 	peer      bool // already tracked as a peer of the requester
+	// peerAged: the requester listed this peer when the peer's last check-in was almost two
+	// minutes old; the peer has checked in again since (still a tracked, active peer: skip it)
+	peerAged bool
+	// moved: the host re-registered on a second connection, then its first one closed
+	moved bool
 }
 
 var c08Vars = []c08Var{
-	{"hgfc", true, "geth", true, true, false},
-	{"hgfcP", true, "geth", true, true, true},
-	{"hgfu", true, "geth", true, false, false},
-	{"hgsc", true, "geth", false, true, false},
-	{"hpfc", true, "parity", true, true, false},
-	{"clf", false, "geth", true, false, false},
+	{"hgfc", true, "geth", true, true, false, false, false},
+	{"hgfcP", true, "geth", true, true, true, false, false},
+	{"hgfu", true, "geth", true, false, false, false, false},
+	{"hgsc", true, "geth", false, true, false, false, false},
+	{"hpfc", true, "parity", true, true, false, false, false},
+	{"clf", false, "geth", true, false, false, false, false},
+	{"hgfcPaged", true, "geth", true, true, true, true, false},
+	{"hgfcMoved", true, "geth", true, true, false, false, true},
 }
 
 type c08Cfg struct {
@@ -77,7 +84,7 @@ func c08Setup(c c08Cfg) *c08World {
 	ids := vh.Identities()
 	w := &c08World{pw: pw, req: ids[0]}
 	now := vsched.Now()
-	var peers []string
+	var peers, agedPeers []string
 	for i, vi := range c.pop {
 		v := c08Vars[vi]
 		id := ids[1+i]
@@ -91,17 +98,46 @@ func c08Setup(c c08Cfg) *c08World {
 				panic(fmt.Sprint("c08 setup connect: ", err))
 			}
 		}
+		if v.moved {
+			// the host registers again on a second connection (same behaviour), then the first closes
+			h2 := pw.Host(id.Name + "-2")
+			h2.Mode = h.Mode
+			if _, err := pw.Connect(id, vh.ConnectOpts{Host: true, Kind: v.kind, Service: h2.Service()}); err != nil {
+				panic(fmt.Sprint("c08 setup reconnect: ", err))
+			}
+			pw.Pool.CloseRemote(h.Service())
+		}
 		n := store.Node{ID: store.NodeID(id.NodeID), Kind: v.kind, IsHost: v.host, LastSeen: now, URI: "enode://" + id.NodeID + "@192.0.2.7:30303"}
 		if !v.fresh {
 			n.LastSeen = now.Add(-store.ExpireInterval - time.Second)
 		}
+		if v.peerAged {
+			agedPeers = append(agedPeers, id.NodeID)
+		}
 		pw.Raw.SetNode(n)
-		if v.peer {
+		if v.peer && !v.peerAged {
 			peers = append(peers, id.NodeID)
 		}
 	}
 	pw.Raw.SetNode(store.Node{ID: store.NodeID(w.req.NodeID), Kind: "geth", IsHost: c.reqHost, LastSeen: now})
-	if len(peers) > 0 {
+	if len(agedPeers) > 0 {
+		// 118 s ago these peers had last checked in; the requester listed them; they have checked in
+		// again since and the requester's own keep-alive is 2 s old
+		for _, p := range agedPeers {
+			n, _ := pw.Raw.GetNode(store.NodeID(p))
+			old := *n
+			old.LastSeen = now.Add(-118 * time.Second)
+			pw.Raw.SetNode(old)
+		}
+		pw.Raw.UpdateNodePeers(store.NodeID(w.req.NodeID), append(append([]string{}, peers...), agedPeers...), 1)
+		for _, p := range agedPeers {
+			n, _ := pw.Raw.GetNode(store.NodeID(p))
+			fresh := *n
+			fresh.LastSeen = now
+			pw.Raw.SetNode(fresh)
+		}
+		vsched.Advance(3 * time.Second)
+	} else if len(peers) > 0 {
 		pw.Raw.UpdateNodePeers(store.NodeID(w.req.NodeID), peers, 1)
 	}
 	return w
@@ -112,6 +148,8 @@ type c08Result struct {
 	err    error
 	acked  map[string]bool // whitelist(requester) completed successfully at the moment the reply was returned
 	called map[string]bool
+	// hosts that were asked on a connection that had been closed
+	deadCalled []string
 }
 
 func c08Call(w *c08World, c c08Cfg) c08Result {
@@ -136,8 +174,18 @@ func c08Call(w *c08World, c c08Cfg) c08Result {
 		r.hosts = append(r.hosts, string(n.ID))
 	}
 	r.acked, r.called = map[string]bool{}, map[string]bool{}
-	for _, id := range w.nodes {
-		for _, call := range w.pw.Host(id.Name).Calls {
+	for i, id := range w.nodes {
+		conn := id.Name
+		if c08Vars[c.pop[i]].moved {
+			// (the connection the host is registered on now; a call on the closed one acknowledges nothing)
+			conn = id.Name + "-2"
+			for _, call := range w.pw.Host(id.Name).Calls {
+				if call.Method == "vipnode_whitelist" {
+					r.deadCalled = append(r.deadCalled, id.Name)
+				}
+			}
+		}
+		for _, call := range w.pw.Host(conn).Calls {
 			if call.Method == "vipnode_whitelist" && call.Arg == w.req.NodeID {
 				r.called[id.NodeID] = true
 				if call.Done && !call.Err {
@@ -192,6 +240,9 @@ func c08Judge(c c08Cfg, w *c08World, r c08Result) (string, string) {
 	}
 	if h := w.req.NodeID; seen[h] {
 		return "returned-requester", ""
+	}
+	if len(r.deadCalled) > 0 {
+		return "closed-connection-called", fmt.Sprintf("hosts %v were asked on the connection that had closed, not on the one they are registered on", r.deadCalled)
 	}
 	if limit <= 0 && len(r.hosts) > 0 {
 		return "hosts-for-nonpositive-request", fmt.Sprintf("%d hosts returned", len(r.hosts))
